@@ -17,6 +17,9 @@ func init() {
 	parts["memfs-perm"] = func(seed uint64, tier string, replay []string) *lib.Result {
 		return corrMemfs(seed, tier, replay, "C03", fsGenOpts{users: true, symlinks: true}, 3)
 	}
+	parts["memfs-enum"] = func(seed uint64, tier string, replay []string) *lib.Result {
+		return corrMemfs(seed, tier, replay, "C14", fsGenOpts{enum: true, symlinks: true, users: true}, 5)
+	}
 	parts["memfs-views"] = func(seed uint64, tier string, replay []string) *lib.Result {
 		return corrMemfs(seed, tier, replay, "C11", fsGenOpts{views: true, users: true, relative: true}, 4)
 	}
